@@ -143,6 +143,13 @@ def run_case(ctx, rng, idx):
                 h.remove_node(spare[0], keep_edges=True)
                 if () in h.get_edges():
                     ctx.event("contains-the-empty-hyperedge")
+        if h.is_weighted() and h.get_edges() and rng.random() < 0.4:
+            # weight 0 is a weight: every hyperedge of one node gets it (that node is still a node of those hyperedges)
+            v0 = rng.choice(sorted({n for e in h.get_edges() for n in e}, key=repr) or [None])
+            for e in list(h.get_edges()):
+                if v0 in e:
+                    h.set_weight(e, rng.choice([0, 0.0]))
+            ctx.event("all-hyperedges-of-one-node-have-weight-zero")
         static_case(ctx, rng, h, idx, stress=False)
         from ..mutate import same_count_edit
 
@@ -289,13 +296,14 @@ def static_case(ctx, rng, h, idx, stress):
         ctx.distinct_add(S.freeze())
     if idx % 100 < 2:
         ctx.sample({"object": S.describe() if not stress else {"stress family": len(S.edges)}})
-    if S.weighted or not S.edges:
+    if not S.edges:
         return
-    # ---- per-order variants (unweighted) -----------------------------------------------------
+    # ---- per-order variants (adjacency / Laplacian: unweighted only, as stated; the per-order INCIDENCE also for weighted
+    # hypergraphs - entries are the hyperedge's weight, the mapping is onto the nodes of that order / all nodes) ---------------
     mx = max(K.size(k) for k in S.edges)
     orders = range(0, mx + 1) if not stress else rng.sample(range(1, mx + 1), 3)
-    all_inc = call(la.incidence_matrices_all_orders, h) if not stress else None
-    all_lap = call(la.laplacian_matrices_all_orders, h) if not stress else None
+    all_inc = call(la.incidence_matrices_all_orders, h) if not stress and not S.weighted else None
+    all_lap = call(la.laplacian_matrices_all_orders, h) if not stress and not S.weighted else None
     by_order = {}
     for d in orders:
         sel = [frozenset(e) for e in h.get_edges(order=d)]
@@ -310,12 +318,14 @@ def static_case(ctx, rng, h, idx, stress):
             exp_nodes = nodes if keep else sorted(set().union(*sel), key=repr) if sel else []
             if not check_mapping(ctx, mp, exp_nodes, I.shape[0] if I.ndim == 2 else 0, f"incidence_matrix_by_order(keep={keep})", wit):
                 continue
-            ref = np.array([[1 if mp[i] in e else 0 for e in sel] for i in range(len(exp_nodes))]).reshape(len(exp_nodes), len(sel))
-            ctx.check("C09:per-order", I.shape == ref.shape and np.array_equal(I, ref), f"C09:incidence_matrix_by_order(keep={keep}):entries", lambda: wit((d, I.tolist(), ref.tolist())))
+            ref = np.array([[(S.edges[e][0] if S.weighted else 1) if mp[i] in e else 0 for e in sel] for i in range(len(exp_nodes))], dtype=float if S.weighted else int).reshape(len(exp_nodes), len(sel))
+            ctx.check("C09:per-order", I.shape == ref.shape and (np.allclose(I, ref, rtol=1e-12, atol=0) if S.weighted else np.array_equal(I, ref)), f"C09:incidence_matrix_by_order(keep={keep}):entries" + (":weighted" if S.weighted else ""), lambda: wit((d, I.tolist(), ref.tolist())))
             by_order[(d, keep)] = ref
             if not keep and all_inc is not None and not isinstance(all_inc, _Raised) and 1 <= d <= mx - 1:
                 ok = d in all_inc and np.array_equal(dense(all_inc[d]), I)
                 ctx.check("C09:per-order", ok, "C09:incidence_matrices_all_orders:differs-from-by-order", lambda: wit(d))
+        if S.weighted:
+            continue
         r = call(la.adjacency_matrix_by_order, h, npize(rng, d), return_mapping=True)
         if isinstance(r, _Raised):
             ctx.check("C09:per-order", False, f"C09:adjacency_matrix_by_order:raised:{type(r.e).__name__}", lambda: wit((d, r)))
@@ -348,7 +358,7 @@ def static_case(ctx, rng, h, idx, stress):
         ctx.check("C09:laplacian", L.shape == (N, N) and np.array_equal(L, L.T) and not L.sum(axis=1).any(), "C09:laplacian:not-symmetric-or-rowsum", lambda: wit(d))
         if all_lap is not None and not isinstance(all_lap, _Raised) and 1 <= d <= mx - 1:
             ctx.check("C09:laplacian", d in all_lap and np.array_equal(dense(all_lap[d]), L), "C09:laplacian_matrices_all_orders:differs", lambda: wit(d))
-    if not stress:
+    if not stress and not S.weighted:
         # the batch route under every flag combination gives, per order, what the single-order route gives
         for keep in (False, True):
             for rm in (False, True):
